@@ -98,6 +98,9 @@ class Gen:
             return f"v{self.k}"
         if self.naming == "identical":
             return "x"
+        if self.naming == "arglike":
+            # legal user names that look like the names the simplifier generates (a query that was simplified before)
+            return f"arg_{self.r.randint(0, 12)}"
         pool = sorted(set(env) | self.all_names)
         if pool and self.r.random() < 0.6:
             self.feat.add("reuse-live")
@@ -179,6 +182,9 @@ class Gen:
     def called_lambda(self, env, want, d):
         self.feat.add("called-lambda")
         r = self.r
+        if r.random() < 0.12:
+            self.feat.add("called-lambda-zero-parameters")
+            return ast.Call(func=lam([], self.expr(env, want, d - 1)), args=[], keywords=[])
         k = r.randint(1, 2)
         pool = [NUM, NUM] + [s for s in env.values() if s[0] in ("obj", "seq")]
         shapes = [r.choice(pool) for _ in range(k)]
